@@ -339,3 +339,16 @@ PROPS['C06']['assumptions'] = [a for a in PROPS['C06']['assumptions'] if not a.s
     'T8: field access through Deref of the map guard (pair.weight) is written pair.value().weight; T9: the for loop over the map iterator is written as the loop it desugars to',
     'X3 (Kani twins only): std BinaryHeap / HashSet bound to stand-ins']
 PROPS['C06']['explanation'] += ' Unit sampler proves the sampler contract itself without a bound (initial sample, pop, refill).'
+
+# C08 relies on the TTLTicker contracts for the expiry index calls it makes
+PROPS['C08']['kani']['quick'] += ['ttl/put_n2_s2', 'ttl/delete_n2_s2', 'ttl/update_n2_s2']
+PROPS['C08']['kani_meta'].update(BND(['ttl/put_n2_s2', 'ttl/delete_n2_s2', 'ttl/update_n2_s2']))
+PROPS['C08']['floor'] = {'quick': 13, 'thorough': 14}
+PROPS['C08']['harness_timeout'] = '1500s'
+PROPS['C08']['kani_timeout'] = 3400
+
+PROPS['C07']['verus'] = ['api', 'worker']
+PROPS['C07']['verus_only']['worker'] = [r'CommandExecutor::put$', r'CommandExecutor::put_with_ttl$']
+PROPS['C07']['floor'] = {'quick': 13, 'thorough': 13}
+PROPS['C07']['assumptions'] = PROPS['C07']['assumptions'] + WORKER_ASSUME
+PROPS['C07']['explanation'] += ' Verus (worker): a Put / PutWithTTL whose key is already held when the worker executes it (two puts queued back to back) is refused with KeyAlreadyExists and changes nothing.'
